@@ -1,4 +1,5 @@
 import KyupyVerif.Proofs.Cycle
+import KyupyVerif.Proofs.CycleArr
 import KyupyVerif.Proofs.StripLinkMem
 /-! Facts about the tables of a well-formed netlist without fork stripping, and the one-cycle / k-cycle statements for the
 op program `genOps` of every well-formed netlist in every topological order. -/
@@ -63,6 +64,25 @@ theorem genOps_out_ne_zero (tbl : List PrefixRow) (net : Net) (order : List Nat)
   obtain ⟨hz, ht, _⟩ := idx_vals net
   have := genOps_out tbl net order false hwf hlt r hr
   show r.out ≠ _
+  omega
+
+theorem sigOps_out (tbl : List PrefixRow) (net : Net) (order : List Nat) (strip : Bool) (hwf : net.wfB = true)
+    (hlt : ∀ n ∈ order, n < net.nodes.size) (o : Op) (ho : o ∈ sigOps tbl net order strip) : o.out < net.idx.len := by
+  unfold sigOps at ho
+  obtain ⟨r, hr, rfl⟩ := List.mem_map.1 ho
+  have := genOps_out tbl net order strip hwf hlt r hr
+  simp only [Net.idx] at this ⊢
+  omega
+
+theorem pippi_lt (net : Net) (strip : Bool) (px : Nat × Nat) (h : px ∈ (tabsOf net strip).pippi) : px.2 < net.idx.len := by
+  simp only [tabsOf, List.mem_map, List.mem_append] at h
+  obtain ⟨p, hp, rfl⟩ := h
+  have := io_le_sNodes net
+  have hlt : p < net.sNodes.length := by
+    rcases hp with hp | hp
+    · have := ((mem_piS net p).1 hp).1; omega
+    · exact ((mem_ppioS net p).1 hp).2
+  simp only [Net.idx]
   omega
 
 theorem isPoppo_of (net : Net) (p : Nat) (hp : p < net.sNodes.length)
